@@ -140,6 +140,8 @@ def exec_units(job):
     m.error = before.copy()
     out = "ok"
     try:
+        m.get_all_statistics()          # statistics are taken before the conversion as well (history: stats, convert, stats)
+        m.get_result()
         m.change_unit(getattr(metrics.Unit, UNITNAME[c["to"]]))
     except metrics.MetricsException:
         out = "MetricsException"
@@ -158,7 +160,13 @@ def exec_units(job):
                     k10, pi = int(k), p
                     break
     unit = [k for k, v in UNITNAME.items() if getattr(metrics.Unit, v) is m.unit]
-    return {"out": out, "unit": unit[0] if unit else "?", "k10": k10, "pi": pi}
+    follow = True
+    if after.shape == before.shape and after.size:
+        st = m.get_all_statistics()
+        ref = {"rmse": math.sqrt(float(np.mean(after ** 2))), "sse": float(np.sum(after ** 2)), "mean": float(np.mean(after)),
+               "median": float(np.median(after)), "std": float(np.std(after)), "min": float(np.min(after)), "max": float(np.max(after))}
+        follow = all(abs(float(st[k]) - v) <= 1e-12 * max(1.0, abs(v)) for k, v in ref.items())
+    return {"out": out, "unit": unit[0] if unit else "?", "k10": k10, "pi": pi, "stats_follow": bool(follow)}
 
 
 def exec_ape_axisangle(job):
@@ -200,6 +208,14 @@ def exec_companion(job):
     est.timestamps = clock.g(stamps)
     rel = getattr(metrics.PoseRelation, REL[c["rel"]])
     change = getattr(metrics.Unit, UNITNAME[c["change"]]) if c["change"] != "none" else None
+    rec = {"pairs": []}
+    orig = metrics.id_pairs_from_delta
+
+    def spy(poses, *a, **kw):
+        prs = orig(poses, *a, **kw)
+        rec["pairs"] = [[int(i), int(j)] for i, j in prs]
+        return prs
+    metrics.id_pairs_from_delta = spy
     try:
         with contextlib.redirect_stdout(io.StringIO()):
             if c["metric"] == "ape":
@@ -213,7 +229,9 @@ def exec_companion(job):
                 mname = "RPE"
     except Exception as e:  # noqa: BLE001
         return {"out": type(e).__name__, "nerr": 0, "ts": [], "sfs": [], "dist": [], "dfs": [], "ids": [], "st_est": [], "st_ref": [],
-                "title_ok": True, "label_ok": True}
+                "title_ok": True, "label_ok": True, "pairs": []}
+    finally:
+        metrics.id_pairs_from_delta = orig
     arr = res.np_arrays
 
     def ints(a, f):
@@ -241,7 +259,7 @@ def exec_companion(job):
         if len(arr.get("timestamps", [])) != len(ids):
             ids = [lookup.get(t, -1) for t in ints(arr["timestamps"], tick)]
     return {"out": "ok", "nerr": int(len(arr["error_array"])), "ts": ints(arr["timestamps"], tick), "sfs": ints(arr["seconds_from_start"], dsec),
-            "dist": ints(arr["distances"], dlen), "dfs": ints(arr["distances_from_start"], dlen), "ids": ids,
+            "dist": ints(arr["distances"], dlen), "dfs": ints(arr["distances_from_start"], dlen), "ids": ids, "pairs": rec["pairs"],
             "st_est": st_est, "st_ref": ints(res.trajectories["reference"].timestamps, tick),
             "title_ok": bool(mname in first_line and rel.value in first_line and "(" + unit_after + ")" in first_line),
             "label_ok": bool(mname in label and "(" + unit_after + ")" in label)}
